@@ -291,9 +291,13 @@ def get_deterministic_sign_multiplier(data: DataArray, dim: str) -> DataArray:
     """
     # This method is carefully constructed to avoid idexing ops
     # so we can execute this lazily on dask arrays
-    min_max = xr.concat([data.max(dim), data.min(dim)], dim="sign")
+    max_vals, min_vals = data.max(dim), data.min(dim)
+    min_max = xr.concat([max_vals, min_vals], dim="sign")
     min_max = min_max.assign_coords(sign=[1, -1])
     sign_multiplier = np.abs(min_max).idxmax("sign")
+    # Entries that are all equal and negative tie above; their sign must be flipped too
+    is_negative_constant = (max_vals == min_vals) & (max_vals.real < 0)
+    sign_multiplier = xr.where(is_negative_constant, -1, sign_multiplier)
     # Drop all dimensions except 'mode' so that the index is clean
     for dim, coords in sign_multiplier.coords.items():
         if dim != "mode":
